@@ -1,10 +1,13 @@
 \* random programs of <= 12 commands over the full menu (tlc -simulate -depth 25); the check
-\* sets LatOor / LatRec / AppendKw / KwPermitted to what the backend under test exhibits
+\* sets the latitude constants and KwPermitted to what the backend under test exhibits
+\* (here: what pymap's dict backend does)
 SPECIFICATION Spec
 CONSTANTS
   KwPermitted = FALSE
-  LatOor = {"lenient"}
-  LatRec = {"lenient"}
+  OorLenient = {"copy", "fetch", "move", "store"}
+  OorStrict = {}
+  RecLenient = {"append", "store"}
+  RecStrict = {}
   AppendKw = {"keep"}
   Inits = {"empty", "std"}
   MaxCmds = 12
